@@ -2,6 +2,17 @@ package props
 
 import "sort"
 
+// pidKeys returns the keys of a per-PID map in increasing order (map iteration order must
+// never reach a verdict or a log).
+func pidKeys[V any](m map[uint16]V) []uint16 {
+	ks := make([]uint16, 0, len(m))
+	for k := range m {
+		ks = append(ks, k)
+	}
+	sort.Slice(ks, func(i, j int) bool { return ks[i] < ks[j] })
+	return ks
+}
+
 func sortStrings(s []string) { sort.Strings(s) }
 
 func fnvStr(s string) uint64 {
